@@ -23,7 +23,7 @@ def get_file_stat(source: Union[str, StringIO], chunk_row_size: int):
     total_byte_size, count_columns = 0, 0
 
     if isinstance(source,str):
-        with open(source) as f:
+        with open(source, encoding=utils.guess_encoding(source)) as f:
             f.seek(0,2)
             total_byte_size = f.tell()
 
